@@ -145,7 +145,7 @@ def register(R):
         requires=lambda c: [c.a_offset >= 0, to_int_term(c.a_data.lo) == c.a_offset],
         ensures=post,
         raises={},
-        returns=WRITES_T,
+        effects=_call_site_effects,
         loops={0: LoopSpec(invariant=loop_inv, local_types={'writes': WRITES_T}, havoc_heap=havoc)},
         twins=lambda c: {'never_releases_anything': c.newf('_next_offset') == c.oldf('_next_offset')},
     )
@@ -158,6 +158,21 @@ def register(R):
             'starts_empty': B(_is_empty_list(c.new, c.newf('_writes')) and _is_empty_dict(c.new, c.newf('_pending_offsets'))),
         },
     )
+
+
+def _call_site_effects(c, st):
+    """At call sites: the queue's representation is replaced by fresh values constrained by the
+    postcondition (which is then assumed), the result is a fresh list of write records."""
+    eng = c.engine
+    q = st.obj(c.self)
+    hp = st.obj(q.fields['_writes'])
+    hp.meta['count'] = z3.Array(fresh_name('count'), z3.IntSort(), z3.ArraySort(z3.IntSort(), z3.IntSort()))
+    hp.meta.pop('nonempty_cache', None)
+    pm = st.obj(q.fields['_pending_offsets'])
+    pm.meta['present'] = z3.Array(fresh_name('pend_present'), z3.IntSort(), z3.BoolSort())
+    pm.meta['vals'] = z3.Array(fresh_name('pend_vals'), z3.IntSort(), z3.IntSort())
+    q.fields['_next_offset'] = z3.Int(fresh_name('next_offset'))
+    return eng.make_symbolic(WRITES_T, 'writes', st)
 
 
 class _V:
